@@ -74,6 +74,8 @@ mod proofs {
         while x < CAP { let mut y = x + 1; while y < CAP { if y < out.len {
             let (a, b) = (out.buf[x], out.buf[y]);
             if kind(&a) == kind(&b) && !is_foreign(&a) { assert!(idof(&a) < idof(&b), "relative order of two items of the same kind changed"); }
+            // extern blocks are items of one kind too: they stay in the order in which their first foreign item appeared
+            if let (Item::ForeignMod(ma), Item::ForeignMod(mb)) = (a, b) { if ma.items.len > 0 && mb.items.len > 0 { assert!(ma.items.buf[0].0 < mb.items.buf[0].0, "relative order of two extern blocks changed"); } }
         } y += 1; } x += 1; }
         let mut k = 0usize;
         while k < CAP { if k < out.len { if let Item::ForeignMod(m) = out.buf[k] {
